@@ -296,6 +296,27 @@ func (e *executor) executeString() (string, error) {
 	return strings.TrimSpace(string(stdOutContents)), nil
 }
 
+// executeRaw runs the constructed Git command and returns the contents of
+// stdout without any processing. It must be used when the output is NUL
+// delimited (`-z`), as leading and trailing whitespace may be part of a path.
+func (e *executor) executeRaw() ([]byte, error) {
+	stdOut, stdErr, err := e.execute()
+	if err != nil {
+		stdErrContents, newErr := io.ReadAll(stdErr)
+		if newErr != nil {
+			return nil, fmt.Errorf("unable to read stderr contents: %w; original err: %w", newErr, err)
+		}
+		return nil, fmt.Errorf("%w when executing `git %s`: %s", err, strings.Join(e.args, " "), string(stdErrContents))
+	}
+
+	stdOutContents, err := io.ReadAll(stdOut)
+	if err != nil {
+		return nil, fmt.Errorf("unable to read stdout contents: %w", err)
+	}
+
+	return stdOutContents, nil
+}
+
 // execute runs the constructed Git command and returns the raw stdout and
 // stderr contents. It adds the `--git-dir` argument if the repository has a
 // path set.
